@@ -171,6 +171,15 @@ opened("C08-operator-named-name-test", "C08",
 opened("C08-backslash-in-double-quoted-literal", "C08",
        "a double-quoted literal containing a backslash that is not a recognised escape (\"a\\b\") is rejected; XPath literals have no escapes",
        expect("<r/>", '"a\\b"', st("a\\b")))
+opened("C08-literal-ending-in-backslash", "C08",
+       "a literal whose last character is a backslash is read by the generated lexer as continuing past its closing "
+       "quote (it takes \\' for an escape): the valid expression '\\' * '' is rejected (XPath literals have no escapes; same "
+       "root cause as the double-quoted case: the grammar file's literal tokens define escape sequences)",
+       expect("<r/>", "'\\'*''", {"t": "builds"}))
+opened("C08-variable-reference-repetition", "C08",
+       "the generated lexer's variable-reference token is a repetition of names, so '$a:bb:c' is read as (a:b)(b:c) and "
+       "accepted although it is not an expression; evaluation then uses 'a' and 'bb' and ignores the rest",
+       expect("<r/>", "$a:bb:c", {"t": "reject"}))
 opened("C08-number-split-by-white-space", "C08",
        "'1 . 5' is not an expression but BuildExpr accepts it (Number is a syntax rule over tokens, so white space may split it); Exec then fails with a strconv error",
        expect("<r/>", "1 . 5", {"t": "reject"}))
